@@ -33,7 +33,7 @@ def digest (s : St) (open_ : Nat) : String :=
     let mes := (s.mes.mergeSort fun a b => a.1 ≤ b.1).map fun p => meStr p.1 p.2
     let pools := s.pools.mergeSort (· ≤ ·)
     let ds := ((s.dials.map fun p => s!"{p.1}:{p.2}").mergeSort (· ≤ ·))
-    s!"mes={";".intercalate mes} pools={"+".intercalate pools} default={s.defaultName} open={pools.length} monitors={pools.length} dials={"+".intercalate ds}"
+    s!"mes={";".intercalate mes} pools={"+".intercalate pools} default={s.defaultName} open={pools.length} monitors={pools.length} dials={"+".intercalate ds} gcpcfg=ok"
 
 def fail (rep : Report) (ln : Nat) (p c : String) : Report :=
   { rep.msg s!"MONITOR property={p} clause={c} line={ln}" with monitorFails := rep.monitorFails + 1 }
@@ -45,6 +45,8 @@ def monitor (rep : Report) (ln : Nat) (op : String) (a : List (String × String)
   let res := parts.headD ""
   let o := args ((parts.getD 1 "").splitOn " ")
   let rep := if obs.contains "PANIC" then fail (fail rep ln "C16" "rpc_total") ln "C05" "panic" else rep
+  -- C17: GCPConfig() stays an equal deep copy of the configuration given at construction
+  let rep := if obs.contains "gcpcfg=changed" || obs.contains "gcpcfg=aliased" then fail rep ln "C17" "gcpconfig_fixed_at_construction" else rep
   let pools := plusList (arg o "pools")
   let rep := if (op == "new" || op == "upd" || op == "pstate" || op == "close") && parts.length == 2 then
       let rep := if arg o "open" != toString pools.length then fail rep ln "C16" "close_releases_all" else rep
